@@ -4,6 +4,8 @@ Streams (model `Wpull.HttpWire` vs the real code in the wpull tree under test):
   decode   (shared with C08) lock-step co-simulation of Stream.read_response/read_body;
            for C04 the compared component is `notified` = concatenation of the
            notify_read data = what the recorder appends to the response block
+  fault    the recorder's block file / write_record raises OSError(ENOSPC) once at the k-th
+           response_data / request_data write or end_request / end_response      oracle only
   overlap  two REAL WebSessions over ONE real ConnectionPool (worker A still inside its `with`
            block, its connection recycled, while worker B reads on that connection)   oracle only
   tworuns  run 1 writes WARC + CDX, run 2 loads the CDX through the REAL WARCVisitsTask into a
@@ -398,6 +400,93 @@ def fixed_tworuns():
     return out
 
 
+# ------------------------------------------------------------------ faults on the recorder side
+FAULT_POINTS = ('response_data', 'request_data', 'end_request', 'end_response')
+
+
+def stream_fault(ctx, cases):
+    """cases: (exchange list, {'point', 'k'}).  The recorder's block file (k-th write of response /
+    request data) or write_record (k-th request / response record) raises OSError(ENOSPC) once.
+    The recorder learns of every byte and of end-of-request / end-of-response only through the
+    session's event dispatcher, so the fault must surface in Session.start()/download(): an
+    exchange that is nevertheless reported complete must have its two complete records."""
+    from wpull.warc.recorder import WARCRecorderParams
+    tmp = tempfile.mkdtemp(prefix='c04f-')
+    try:
+        for i, (exs, fault) in enumerate(cases):
+            fault = dict(fault)
+            prefix = os.path.join(tmp, 'f%d' % i)
+            params = WARCRecorderParams(compress=i % 2 == 1, log=False, temp_dir=tmp, software_string='verif', digests=i % 3 != 0)
+            case = {'stream': 'fault', 'fault': {'point': fault['point'], 'k': fault['k']}, 'exchanges': _case_exs(exs)}
+            for ce, e in zip(case['exchanges'], exs):
+                ce['req_body'], ce['req_fields'] = e.get('req_body'), e.get('req_fields', [])
+            results, conns = H.real_session_sequence(exs, recorder_params={'filename': prefix, 'params': params}, fault=fault)
+            path = prefix + ('.warc.gz' if i % 2 == 1 else '.warc')
+            try:
+                records = H.read_warc(path)
+            except H.WarcFormatError as err:
+                ctx.fail('record-length', 'WARCRecorder', case, str(err))
+                continue
+            finally:
+                if os.path.exists(path):
+                    os.remove(path)
+            fired = fault.get('fired_exchange')
+            ctx.case(('fault', fault['point'], fault['k'], tuple((tuple(e['segs']), e['eof'], e['method'], e.get('req_body')) for e in exs)),
+                     tags=['fault:' + fault['point'], 'fault:fired' if fired is not None else 'fault:not-reached'] +
+                          (['fault:exchange-' + ('failed' if results[fired]['x'].outcome != 'ok' else 'completed')]
+                           if fired is not None and fired < len(results) else []))
+            for k, (e, r) in enumerate(zip(exs, results)):
+                uri = 'http://h' + e['path']
+                reqs = [b for f, b in records if f.get('warc-type') == 'request' and f.get('warc-target-uri') == uri]
+                resps = [b for f, b in records if f.get('warc-type') in ('response', 'revisit') and f.get('warc-target-uri') == uri]
+                x = r['x']
+                where = fault['point'] if k == fired else 'HTTPWARCRecorderSession'
+                swallowed = 'recorder-fault-swallowed' if k == fired else None
+                if x.outcome != 'ok':
+                    if resps or len(reqs) > 1:
+                        ctx.fail('record-sequence', where, case, 'exchange %d failed (%s %s) but has %d request / %d response records'
+                                 % (k, x.outcome, x.exc, len(reqs), len(resps)))
+                    continue
+                sent = r['requests'][0] if r['requests'] else None
+                if len(reqs) != 1 or len(resps) != 1:
+                    ctx.fail(swallowed or 'record-sequence', where, case,
+                             'exchange %d was reported complete and has %d request / %d response records%s'
+                             % (k, len(reqs), len(resps), ' (an OSError was raised inside the recorder during this exchange)' if swallowed else ''))
+                elif reqs[0] != sent or resps[0] != e['msg'].message:
+                    ctx.fail(swallowed or ('request-block-not-wire' if reqs[0] != sent else 'response-block-not-wire'), where, case,
+                             'exchange %d was reported complete; request block %d bytes (server received %d), response block %d bytes '
+                             '(server sent %d)%s' % (k, len(reqs[0]), len(sent or b''), len(resps[0]), len(e['msg'].message),
+                                                     ' - an OSError was raised inside the recorder during this exchange' if swallowed else ''))
+        if cases:
+            ctx.sample({'stream': 'fault', 'cases': len(cases)})
+    finally:
+        shutil.rmtree(tmp, ignore_errors=True)
+
+
+def fault_cases(rng, n):
+    out = []
+    simple = lambda: [{'segs': [b'HTTP/1.1 200 OK\r\nContent-Length: 3\r\n\r\na', b'bc'], 'eof': False, 'method': 'GET',
+                       'version': 'HTTP/1.1', 'path': '/p0', 'surplus': b'', 'marker': b'',
+                       'msg': c08._mk(b'HTTP/1.1 200 OK\r\nContent-Length: 3\r\n\r\n', b'abc')},
+                      {'segs': [b'HTTP/1.1 200 OK\r\nTransfer-Encoding: chunked\r\n\r\n2\r\nhi\r\n', b'0\r\n\r\n'], 'eof': False,
+                       'method': 'POST', 'version': 'HTTP/1.1', 'path': '/p1', 'surplus': b'', 'marker': b'', 'req_body': b'x=1',
+                       'msg': c08._mk(b'HTTP/1.1 200 OK\r\nTransfer-Encoding: chunked\r\n\r\n', b'2\r\nhi\r\n0\r\n\r\n', b'hi', framing='chunked')},
+                      {'segs': [b'HTTP/1.1 200 OK\r\nContent-Length: 2\r\n\r\nok'], 'eof': False, 'method': 'GET', 'version': 'HTTP/1.1',
+                       'path': '/p2', 'surplus': b'', 'marker': b'', 'msg': c08._mk(b'HTTP/1.1 200 OK\r\nContent-Length: 2\r\n\r\n', b'ok')}]
+    for point in FAULT_POINTS:
+        for k in range(1, 13 if point == 'response_data' else 5):
+            out.append((simple(), {'point': point, 'k': k}))
+    for _ in range(n):
+        exs = [e for e in gen_exchanges(rng) if not e['surplus']] or gen_exchanges(rng)
+        for e in exs:
+            e['surplus_unused'] = None
+        exs = [e for e in exs if not e['surplus']]
+        if exs:
+            point = rng.choice(FAULT_POINTS)
+            out.append((exs, {'point': point, 'k': rng.randrange(1, 12 if point == 'response_data' else len(exs) + 2)}))
+    return out
+
+
 # ------------------------------------------------------------------ overlap: two web sessions, one pool
 A_MSG = b'HTTP/1.1 200 OK\r\nContent-Length: 3\r\n\r\nabc'
 
@@ -477,6 +566,16 @@ def replay(ctx, case, kind=None, where=None):
     case = case.get('case', case)
     if case.get('stream') == 'overlap':
         stream_overlap(ctx, [case])
+    elif case.get('stream') == 'fault':
+        exs = []
+        for e in case['exchanges']:
+            e = dict(e)
+            e['msg'] = H.Msg.from_case(e['msg'])
+            if e.get('req_body') is None:
+                e.pop('req_body', None)
+            e['req_fields'] = [tuple(p) for p in e.get('req_fields') or []]
+            exs.append(e)
+        stream_fault(ctx, [(exs, case['fault'])])
     elif case.get('stream') == 'tworuns':
         c = dict(case)
         for key in ('exs1', 'exs2'):
@@ -544,6 +643,7 @@ def run(ctx):
         seqs.append((gen_exchanges(wrng, opts, dedup=(i % 5) in (1, 2)), opts))      # 40% of the sequences run with --warc-dedup
     stream_warc(ctx, fixed_dedup_sequences() + seqs)
     stream_overlap(ctx, overlap_cases(ctx.subrng('overlap'), ctx.scale(60, 1500)))
+    stream_fault(ctx, fault_cases(ctx.subrng('fault'), ctx.scale(80, 2000)))
     trng = ctx.subrng('tworuns')
     stream_tworuns(ctx, fixed_tworuns() + [gen_tworuns(trng) for _ in range(ctx.scale(60, 1200))])
 
